@@ -199,6 +199,9 @@ class CHECK(Check):
                 allowed.setdefault('t1' if c[0] == 't' else 't2', set()).add((c[2], c[3], c[4]))
         if q['shape'] == 'sub_m':
             allowed.setdefault('t1', set()).add(('gt', 'a', 0))
+        for t in q['tables']:
+            for c in t.get('allowed_on', ()):
+                allowed.setdefault(t['name'], set()).add(c)
         for st in allsteps:
             if not isinstance(st, S.FetchDataframeStep) or st.query is None:
                 continue
